@@ -305,21 +305,41 @@ theorem md5AppendN_inv (s : Md5State) (m data : Bytes) (n : Nat) (hi : Md5Inv s 
   · rw [if_neg h]
     exact md5AppendCore_inv s m _ hi (by rw [List.length_take]; omega)
 
-theorem md5Append_inv (s : Md5State) (m d : Bytes) (hi : Md5Inv s m) (hd : d.length < 2 ^ 31) :
-    Md5Inv (md5Append s d) (m ++ d) := by
-  unfold md5Append
-  have h1 : d.length % 2 ^ 32 = d.length := Nat.mod_eq_of_lt (by omega)
+theorem md5AppendInt_inv (s : Md5State) (m data : Bytes) (n : Nat) (hi : Md5Inv s m) (hn : n < 2 ^ 31) :
+    Md5Inv (md5AppendInt s data n) (m ++ data.take n) := by
+  unfold md5AppendInt
+  have h1 : n % 2 ^ 32 = n := Nat.mod_eq_of_lt (by omega)
   simp only [h1]
   rw [if_neg (by omega)]
-  have := md5AppendN_inv s m d d.length hi hd
-  rwa [List.take_of_length_le (Nat.le_refl _)] at this
+  exact md5AppendN_inv s m data n hi hn
+
+theorem md5MaxChunk_eq : Gen.md5MaxChunk = 134217728 := by decide
+
+theorem md5AppendLoop_inv : ∀ (fuel : Nat) (s : Md5State) (m d : Bytes), Md5Inv s m → d.length < fuel →
+    Md5Inv (md5AppendLoop fuel s d) (m ++ d)
+  | 0, _, _, _, _, hf => by omega
+  | fuel + 1, s, m, d, hi, hf => by
+    unfold md5AppendLoop
+    rw [md5MaxChunk_eq]
+    by_cases hl : d.length > 134217728
+    · rw [if_pos hl]
+      have h1 := md5AppendInt_inv s m d 134217728 hi (by omega)
+      have h2 := md5AppendLoop_inv fuel _ _ (d.drop 134217728) h1 (by rw [List.length_drop]; omega)
+      rwa [List.append_assoc, List.take_append_drop] at h2
+    · rw [if_neg hl]
+      have h1 := md5AppendInt_inv s m d d.length hi (by omega)
+      rwa [List.take_of_length_le (Nat.le_refl _)] at h1
+
+theorem md5Append_inv (s : Md5State) (m d : Bytes) (hi : Md5Inv s m) :
+    Md5Inv (md5Append s d) (m ++ d) :=
+  md5AppendLoop_inv _ s m d hi (Nat.lt_succ_self _)
 
 theorem md5_foldl_inv : ∀ (chunks : List Bytes) (s : Md5State) (m : Bytes), Md5Inv s m →
-    (∀ c ∈ chunks, c.length < 2 ^ 31) → Md5Inv (chunks.foldl md5Append s) (m ++ chunks.flatten)
-  | [], s, m, hi, _ => by simpa using hi
-  | c :: cs, s, m, hi, hc => by
-    have h1 := md5Append_inv s m c hi (hc c (by simp))
-    have h2 := md5_foldl_inv cs _ _ h1 (fun x hx => hc x (by simp [hx]))
+    Md5Inv (chunks.foldl md5Append s) (m ++ chunks.flatten)
+  | [], s, m, hi => by simpa using hi
+  | c :: cs, s, m, hi => by
+    have h1 := md5Append_inv s m c hi
+    have h2 := md5_foldl_inv cs _ _ h1
     simpa [List.append_assoc] using h2
 
 theorem md5Pad_eq : nats Gen.md5Pad = 0x80 :: List.replicate 63 0 := by decide
